@@ -50,6 +50,27 @@ CLAIMED.update({
    note="Delay 0; heavier scenarios (3 workers with several failing assets, 3 assets in memory) run in the thorough tier under an execution cap that is reported."),
 })
 
+CLAIMED.update({
+ "C03": dict(engine="mc-dpor", design="5/C03", technique="stateless model checking of every pipeline on the real code: DPOR with sleep sets over all Mazurkiewicz traces per (configuration, length, capacity) scenario, quiescence oracle without clocks, vector-clock race detector, delay-bounded cross-check",
+   text="70k scenarios (101 pipelines + decorators/compounds x deep period boxes x input lengths around the warm-up x input capacities {0,1,3} x unequal input lengths) are each explored over ALL schedules by DPOR; a deadlock, a leaked goroutine, an output that is never closed, unconsumed buffered values, a panic, a second outcome or a happens-before race in any execution is a violation. Hangs are quiescent states of the controlled scheduler, not timeouts.",
+   note="The scheduler models Go channel/WaitGroup/Mutex semantics at operation granularity (self-tested against an unreduced DFS); OS-thread counts are covered by the data-race-freedom argument, not enumerated."),
+ "C09": dict(engine="mc-dpor", design="5/C09", technique="bounded-exhaustive call sequences on one instance against fresh instances, plus DPOR / delay-bounded exploration of two concurrent Compute calls with a happens-before race detector and a receiver-immutability invariant at every scheduling point",
+   text="For every indicator and strategy x configuration: all ordered pairs (and some triples) of sequential Compute calls with inputs of four lengths on one instance must equal fresh-instance results and leave the receiver's deep dump unchanged; two concurrent calls on one instance are explored over all traces (DPOR) with the race detector on and the receiver dump compared at every scheduling point; compounds sharing a sub-strategy instance run concurrently.",
+   note="Race freedom is decided on instrumented accesses only (fields via pointers, captured mutated variables, package variables, maps, slice elements); the auxiliary delay-bounded search is cut at 400 executions per scenario."),
+ "C13": dict(engine="mc-dpor", design="5/C13", technique="stateless model checking of the real Backtest worker pool: DPOR with sleep sets, race detector, protocol/result oracles, rendered HTML parsed",
+   text="162 scenarios (1-3 assets with snapshots inside and outside the look-back window x 3 strategy lists x workers 1-16 x recording / Data / HTML report): workers 1-3 are explored over all schedules by DPOR (HTML for the small pools), larger pools under the canonical schedule; every execution must follow the notification protocol, deliver exactly one result per pair equal to direct evaluation, give the same result set, rank non-increasingly and contain no race.",
+   note="time.Now is not controlled (dates are kept a day away from the bound); HTML outcomes are compared at the two printed decimals; text/template's channel range is routed into the scheduler through an overlaid copy of the standard library file."),
+ "C14": dict(engine="trie", design="5/C14", technique="bounded-exhaustive enumeration of (strategy, configuration, length, series) reports on the real code: every column drained by an independent reader under the controlled scheduler, then rendered through the real template and parsed",
+   text="For every strategy (base, decorated, compound) x configuration x snapshot counts {w+1..w+4, 2w+2} x 3 series the report's date axis and every column channel are pulled out by reflection and drained independently: each column must supply exactly one value per date row; Close/annotation/Outcome (and catalogued indicator columns) are compared per date; the rendered HTML rows are parsed and compared, and an exhausted or over-long column is detected as a zero-value receive / blocked sender.",
+   note="Bar series are fixed irregular series; indicator columns are compared where the catalogue restates them."),
+ "C18": dict(engine="trie", design="5/C18", technique="explicit-state exploration of the input trie with a metamorphic oracle: every node re-executed on price- and volume-rescaled inputs (powers of two) and compared bit-for-bit",
+   text="Every trie node (positive alphabets) of every indicator with catalogued homogeneity degrees and of every scale-free strategy is re-executed with all prices x 2^-3, 2^4, 2^10 and all volumes x 2^-2, 2^5: outputs must equal original x factor^degree bit-for-bit and actions must be identical.",
+   note="Power-of-two factors only (exact IEEE covariance); degrees come from the catalogue."),
+ "C19": dict(engine="token-enum", design="5/C19", technique="bounded-exhaustive enumeration of token strings (CSV, JSON, HTTP bodies x status codes) on the real readers under the controlled scheduler; reference readers built on encoding/csv and encoding/json",
+   text="All strings of up to 6 CSV tokens (3 row shapes, with/without header) and up to 4 JSON tokens (also as Tiingo HTTP bodies with 8 status codes through a synchronous fake transport), plus unreadable/missing files: no panic in the reader goroutine, no hang, no leaked goroutine, delivered rows = well-formed prefix, non-200 and missing files yield errors.",
+   note="Byte strings are token strings over the stated alphabets."),
+})
+
 checks = []
 for pid, c in CLAIMED.items():
     checks.append({
@@ -72,6 +93,7 @@ m = {
  "engines": [
   {"name": "mc-dpor", "path": "engine/mc + harness/explore", "serves_properties": [p for p,c in CLAIMED.items() if c["engine"]=="mc-dpor"], "kind_free_text": "hand-written controlled scheduler for Go channels/sync with exact operation semantics, stateless DPOR, delay-bounded DFS, vector-clock race detector"},
   {"name": "trie", "path": "harness/checks/ind.go, harness/cat, harness/ref", "serves_properties": [p for p,c in CLAIMED.items() if c["engine"]=="trie"], "kind_free_text": "bounded-exhaustive input-trie exploration; every node is an execution of the real pipeline under the controlled scheduler"},
+  {"name": "token-enum", "path": "harness/checks/c19.go", "serves_properties": [p for p,c in CLAIMED.items() if c["engine"]=="token-enum"], "kind_free_text": "bounded-exhaustive token-string enumeration with reference tokenisers"},
   {"name": "history-bfs", "path": "harness/checks", "serves_properties": [p for p,c in CLAIMED.items() if c["engine"]=="history-bfs"], "kind_free_text": "explicit-state BFS over operation histories of real objects with concrete-state deduplication"},
  ],
  "checks": checks,
